@@ -112,6 +112,8 @@ def _injective_key(key: ast.AST, lvars: set[str], rebinds: dict[str, list]) -> t
 
 def _injective_rebind(stmt, name) -> bool:
     if isinstance(stmt, ast.Assign):
+        if isinstance(stmt.targets[0], ast.Subscript):
+            return False
         v = stmt.value
         if isinstance(v, ast.Call) and isinstance(v.func, ast.Name) and v.func.id in INJECTIVE_WRAPPERS and len(v.args) == 1 and src(v.args[0]) == name:
             return True
@@ -190,6 +192,8 @@ def classify_store(fi: FuncInfo, st: ast.Assign, par) -> tuple[str | None, str]:
                     for t2 in x.targets:
                         if isinstance(t2, ast.Name) and t2.id in lvars:
                             rebinds.setdefault(t2.id, []).append(x)
+                        elif isinstance(t2, ast.Subscript) and isinstance(t2.value, ast.Name) and t2.value.id in lvars:
+                            rebinds.setdefault(t2.value.id, []).append(x)  # element replaced: re-labelling
                 elif isinstance(x, ast.AugAssign):
                     t2 = x.target
                     base = t2.value if isinstance(t2, ast.Subscript) else t2
